@@ -340,3 +340,54 @@ def c21_fresh(R):
                     construct=f"{name}: in-place write to {x.value.id}.{x.attr}",
                 )
     R.need(n >= 8, f"only {n} in-place writes to value fields found")
+
+
+@rule(
+    "C24.booleq",
+    props=("C24", "C10"),
+    floor=2,
+    family="TAB",
+    desc="the VSA backend has a handler of its own for == and != that treats two abstract Booleans three-valued (Maybe when "
+    "either side is Maybe): Python's operator fallback reaches BoolResult.__eq__, a structural comparison that answers "
+    "with a Python bool",
+)
+def c24_booleq(R):
+    from .ast_tables import dispatch
+
+    tree = R.tree
+    BVP = "claripy/backends/backend_vsa/backend_vsa.py"
+    m = tree.mod(BVP)
+    d = dispatch(tree, "vsa")
+    for op in ("__eq__", "__ne__"):
+        h = d.handler(op)
+        own = h.kind in ("method", "func") and h.fn is not None
+        R.check(
+            own,
+            m,
+            tree.cls(BVP, "BackendVSA"),
+            f"vsa: {op} has a handler of its own",
+            f"vsa: {op} is left to Python's operator.{op}: for two abstract Booleans that is BoolResult.__eq__, which compares the "
+            f"abstract values structurally - Maybe == Maybe is a definite True, and SolverVSA().is_true((x == y) == (x != y)) was True "
+            f"for an unsatisfiable expression",
+            construct=f"vsa dispatch {op} for Booleans",
+        )
+        if not own:
+            continue
+        fn = h.fn
+        txt = ast.unparse(fn)
+        # through a sibling handler (`~_op_eq(a, b)`) or directly: Boolean operands are recognised and Maybe is contagious
+        target = fn
+        for c in ast.walk(fn):
+            if isinstance(c, ast.Call) and isinstance(c.func, ast.Attribute) and c.func.attr.startswith("_op_") and c.func.attr != fn.name:
+                sib = util.methods_of(tree.cls(BVP, "BackendVSA")).get(c.func.attr)
+                if sib is not None and "MaybeResult" in ast.unparse(sib):
+                    target = sib
+        ttxt = ast.unparse(target)
+        R.check(
+            "BoolResult" in txt and "MaybeResult" in ttxt and "is_maybe" in ttxt,
+            m,
+            fn,
+            f"vsa: {op} of two Booleans is Maybe when either is",
+            f"BackendVSA's handler for {op} does not give Maybe for a Maybe operand",
+            construct=f"vsa {op}: three-valued equality",
+        )
